@@ -8,7 +8,7 @@
     build every captured / error span from lexer spans. Hypothesis on the scanner: it measures
     token ends with ColumnMetrics::end_position and never ends a token between the CR and LF of a
     CRLF ending — proved here for the harness scanners ([scan_canonical]). *)
-From Tephra Require Import MetricsSpec MetricsFacts CLexer LexerFacts LexerCanon.
+From Tephra Require Import MetricsSpec MetricsFacts CLexer LexerFacts LexerCanon LexerFacts Run Peg RunCore RunMove RunBracket RunCanon.
 
 (** the scanner maps canonical starts to canonical ends, strictly further on *)
 Theorem C03_scanner_canonical :
@@ -47,6 +47,41 @@ Theorem C03_start_sublex :
   PosOK m t lx -> c_start_sublex lx = Ok lx' -> PosOK m t lx'.
 Proof. exact c_start_sublex_pos. Qed.
 Print Assumptions C03_start_sublex.
+
+(** what the combinators REPORT: every token a lexer with canonical positions will deliver has
+    canonical start and end positions; hence the spans named by the errors of the token leaves,
+    the spans captured by spanned around a sub-free core parser, and the spans of every bracket
+    error are canonical *)
+Theorem C03_deliverable_tokens_canonical :
+  forall m, 1 <= tabw m -> forall t, wf_text t ->
+  forall lx ys x, Inv m t lx ys -> PosOK m t lx -> In x (kept (c_filter lx) ys) ->
+  Canonical m t (e_start x) /\ Canonical m t (e_end x).
+Proof. exact deliverable_canonical. Qed.
+Print Assumptions C03_deliverable_tokens_canonical.
+
+Theorem C03_leaf_error_spans_canonical :
+  forall m, 1 <= tabw m -> forall t, wf_text t ->
+  forall lx ys x s, Inv m t lx ys -> PosOK m t lx -> kept (c_filter lx) ys = x :: s ->
+  span_canonical m t (mkspan (e_start x) (e_end x)) /\ span_canonical m t (c_parse_span lx).
+Proof. exact leaf_error_span_canonical. Qed.
+Print Assumptions C03_leaf_error_spans_canonical.
+
+Theorem C03_spanned_span_canonical :
+  forall m, 1 <= tabw m -> forall t, wf_text t ->
+  forall f a lx ys c st x s sp v lx' st', Inv m t lx ys -> PosOK m t lx ->
+  kept (c_filter lx) ys = x :: s -> core0 a = true ->
+  run (S f) (GSpanned a) lx c st = (ROk (VSpanned sp v) lx', st') ->
+  (byte (sstart sp) = byte (send sp)) \/ span_canonical m t sp.
+Proof. exact spanned_span_canonical. Qed.
+Print Assumptions C03_spanned_span_canonical.
+
+Theorem C03_bracket_error_spans_canonical :
+  forall m, 1 <= tabw m -> forall t, wf_text t ->
+  forall os cs ab lx ys e, Inv m t lx ys -> PosOK m t lx ->
+  match_nested_brackets lx os cs ab = BErr e ->
+  forall sp, In sp (err_spans e) -> span_canonical m t sp.
+Proof. exact bracket_error_spans_canonical. Qed.
+Print Assumptions C03_bracket_error_spans_canonical.
 
 (** what "canonical" means: the declarative triple of C19 *)
 Theorem C03_canonical_meaning :
